@@ -311,8 +311,14 @@ def repo_root():
     return _real_os.path.realpath(_real_os.environ.get("VERIF_REPO", "/repo"))
 
 
-_want = {"accel": False}
+_want = {"accel": False, "socks": False}
 _STUBS = _real_os.path.join(_real_os.path.dirname(_real_os.path.abspath(__file__)), "stubs")
+_STUBS_SOCKS = _real_os.path.join(_real_os.path.dirname(_real_os.path.abspath(__file__)), "stubs_socks")
+_LIB_PREFIXES = ("websocket", "python_socks")
+
+
+def _is_lib(name):
+    return any(name == p or name.startswith(p + ".") for p in _LIB_PREFIXES)
 
 
 def set_accel(on):
@@ -320,18 +326,24 @@ def set_accel(on):
     _want["accel"] = bool(on)
 
 
+def set_socks(on):
+    """Next install(): import the library with / without the stand-in for the optional `python_socks` package."""
+    _want["socks"] = bool(on)
+
+
 def install():
     """Import websocket from $VERIF_REPO and replace every real primitive its modules hold."""
-    if _installed and _installed.get("accel") == _want["accel"]:
+    if _installed and _installed.get("want") == _want:
         return _installed["ws"]
     _installed.clear()
     for m in list(sys.modules):
-        if m == "wsaccel" or m.startswith("wsaccel."):
+        if m in ("wsaccel", "python_socks") or m.startswith("wsaccel.") or m.startswith("python_socks."):
             del sys.modules[m]
-    while _STUBS in sys.path:
-        sys.path.remove(_STUBS)
-    if _want["accel"]:
-        sys.path.insert(0, _STUBS)
+    for d_, on in ((_STUBS, _want["accel"]), (_STUBS_SOCKS, _want["socks"])):
+        while d_ in sys.path:
+            sys.path.remove(d_)
+        if on:
+            sys.path.insert(0, d_)
     root = repo_root()
     if root not in sys.path:
         sys.path.insert(0, root)
@@ -351,7 +363,7 @@ def install():
             pass
     replaced = 0
     for name, mod in list(sys.modules.items()):
-        if not (name == "websocket" or name.startswith("websocket.")) or mod is None:
+        if not _is_lib(name) or mod is None:
             continue
         if name.startswith("websocket.tests") or name == "websocket._wsdump":
             continue
@@ -373,7 +385,7 @@ def install():
                 replaced += 1
     # the scan must leave nothing real behind
     for name, mod in list(sys.modules.items()):
-        if not (name == "websocket" or name.startswith("websocket.")) or mod is None:
+        if not _is_lib(name) or mod is None:
             continue
         if name.startswith("websocket.tests") or name == "websocket._wsdump":
             continue
@@ -383,8 +395,11 @@ def install():
     if ("Utf8Validator" in vars(ws._utils)) != _want["accel"]:
         raise HarnessError("wsaccel stand-in %s but the library's accelerator branch is %s" % (
             "requested" if _want["accel"] else "not requested", "active" if "Utf8Validator" in vars(ws._utils) else "inactive"))
+    if bool(getattr(ws._http, "HAVE_PYTHON_SOCKS", False)) != _want["socks"]:
+        raise HarnessError("python_socks stand-in requested=%s but the library says HAVE_PYTHON_SOCKS=%s" % (
+            _want["socks"], getattr(ws._http, "HAVE_PYTHON_SOCKS", None)))
     _installed["ws"] = ws
-    _installed["accel"] = _want["accel"]
+    _installed["want"] = dict(_want)
     _installed["replaced"] = replaced
     _installed["trace_prefix"] = _real_os.path.dirname(wsfile) + _real_os.sep
     return ws
